@@ -253,7 +253,15 @@ func (wd *world) genSpec(tp *engine.Tape, kind, ns, name string) config.Spec {
 			dr.Subsets = []*networking.Subset{{Name: "v2", Labels: map[string]string{"version": "v2"},
 				TrafficPolicy: &networking.TrafficPolicy{ConnectionPool: &networking.ConnectionPoolSettings{Tcp: &networking.ConnectionPoolSettings_TCPSettings{MaxConnections: 7}}}}}
 		}
-		switch tp.Choose(5, "tp") {
+		switch tp.Choose(6, "tp") {
+		case 5:
+			// locality weighted distribution without outlier detection
+			dr.TrafficPolicy = &networking.TrafficPolicy{LoadBalancer: &networking.LoadBalancerSettings{LocalityLbSetting: &networking.LocalityLoadBalancerSetting{
+				Distribute: []*networking.LocalityLoadBalancerSetting_Distribute{
+					{From: "region1/*", To: map[string]uint32{"region1/*": 80, "region2/*": 20}},
+					{From: "region2/*", To: map[string]uint32{"region2/*": 100}},
+				},
+			}}}
 		case 1:
 			dr.TrafficPolicy = &networking.TrafficPolicy{Tls: &networking.ClientTLSSettings{Mode: networking.ClientTLSSettings_ISTIO_MUTUAL}}
 		case 2:
